@@ -73,18 +73,18 @@ func (q *wReq) String() string {
 }
 
 type SrvWork struct {
-	x      *Ctx
-	sys    *SrvSys
-	fs     *ScriptFS
-	reqs   []*wReq
-	byConn [][]*wReq
-	byKey  map[string]*wReq
-	msize  uint32
-	dotu   bool
-	actors []*rt.G
-	setupOK []bool
-	ReleaseOrder []int
-	FirstQuiescence func() // called at the first quiescence, before any release
+	x                *Ctx
+	sys              *SrvSys
+	fs               *ScriptFS
+	reqs             []*wReq
+	byConn           [][]*wReq
+	byKey            map[string]*wReq
+	msize            uint32
+	dotu             bool
+	actors           []*rt.G
+	setupOK          []bool
+	ReleaseOrder     []int
+	FirstQuiescence  func() // called at the first quiescence, before any release
 	AfterEachRelease func()
 }
 
